@@ -247,9 +247,14 @@ def model_dump(ctx, a, res, rec):
     return None
 
 
-@op("sc.dump", writes="path", model=model_dump)
+@op("sc.dump", writes="path", seam="dump_fcn", model=model_dump)
 def sc_dump(ctx, a, seam):
     elm, sdl, circuit_translator, sch = _mods()
+    if seam.used:
+        # the same public path with the dump function passed explicitly (SimpleCircuit.dump_load.dump is
+        # functools.partial(dump_load.dump, dump_fcn=serialize)); the wrapper lets other clients run mid-dump
+        from CircuitCalculator import dump_load as dl
+        return dl.dump(a["path"], ctx.arg(a["d"]), dump_fcn=seam.wrap(sdl.serialize))
     return sdl.dump(a["path"], ctx.arg(a["d"]))
 
 
@@ -267,9 +272,12 @@ def model_load(ctx, a, res, rec):
     return _judge(ctx, res, origin, rec, "load")
 
 
-@op("sc.load", reads="path", handle=True, snap=True, model=model_load)
+@op("sc.load", reads="path", seam="deserialize_fcn", handle=True, snap=True, model=model_load)
 def sc_load(ctx, a, seam):
     elm, sdl, circuit_translator, sch = _mods()
+    if seam.used:
+        from CircuitCalculator import dump_load as dl
+        return dl.load(a["path"], deserialize_fcn=seam.wrap(sdl.deserialize))
     return sdl.load(a["path"])
 
 
